@@ -57,6 +57,19 @@ static void add_strip(Entries &e, const M &loc, const M &rem, long row0, long co
         for (ptrdiff_t j = rem.ptr[i]; j < rem.ptr[i+1]; ++j) e[std::make_pair(row0 + (long)i, (long)rem.col[j])] += (double)rem.val[j];
     }
 }
+// block (i,j) of the block-valued test matrices: a_ij times one of three integer matrices that do not commute
+static amgcl::static_matrix<double,2,2> blk(double a, long c) {
+    amgcl::static_matrix<double,2,2> k; int t = (int)(((c % 3) + 3) % 3);
+    k(0,0) = t == 2 ? 0 : 1; k(0,1) = t == 1 ? 0 : 1; k(1,0) = t == 0 ? 0 : 1; k(1,1) = t == 2 ? 0 : 1;
+    return a * k;
+}
+template <class M>
+static void add_block_strip(Entries &e, const M &loc, const M &rem, long row0, long col0) {
+    for (size_t i = 0; i < loc.nrows; ++i) {
+        for (ptrdiff_t j = loc.ptr[i]; j < loc.ptr[i+1]; ++j) for (int a = 0; a < 2; ++a) for (int b = 0; b < 2; ++b) e[std::make_pair(2 * (row0 + (long)i) + a, 2 * (col0 + (long)loc.col[j]) + b)] += loc.val[j](a, b);
+        for (ptrdiff_t j = rem.ptr[i]; j < rem.ptr[i+1]; ++j) for (int a = 0; a < 2; ++a) for (int b = 0; b < 2; ++b) e[std::make_pair(2 * (row0 + (long)i) + a, 2 * (long)rem.col[j] + b)] += rem.val[j](a, b);
+    }
+}
 static std::string same(const Entries &got, const Entries &want) {
     for (Entries::const_iterator it = got.begin(); it != got.end(); ++it) { Entries::const_iterator w = want.find(it->first); double wv = w == want.end() ? 0.0 : w->second; if (it->second != wv) return fmt("entry (%ld,%ld) = %.17g, serial result %.17g", it->first.first, it->first.second, it->second, wv); }
     for (Entries::const_iterator it = want.begin(); it != want.end(); ++it) if (it->second != 0 && !got.count(it->first)) return fmt("entry (%ld,%ld) = %.17g of the serial result is missing", it->first.first, it->first.second, it->second);
@@ -87,7 +100,7 @@ Result execute(const Plan &p) {
     auto sig = [&](const char *oracle, const char *clause, const std::string &detail) { Violation v; v.oracle = oracle; v.add("component", "distributed_matrix"); v.add("clause", clause); v.add("ranks", R); v.detail = detail; return v; };
 
     // harness-side result stores (all ranks share the process)
-    Entries gotA, gotT, gotC, gotS, gotF, gotFC, gotK, gotKT, gotKC, gotKF;
+    Entries gotA, gotT, gotC, gotS, gotF, gotFC, gotK, gotKT, gotKC, gotKF, gotBT, gotBC;
     std::vector<double> yk(n, 0.0), gshs(R, 0.0), pows(R, 0.0);
     // a copy of A with a guaranteed non-zero diagonal (scaled spectral radius estimates)
     gen::Csr Adg; if (square) { gen::Builder bd(n, n); for (long i = 0; i < n; ++i) { double s = 0; for (ptrdiff_t j = A.ptr[i]; j < A.ptr[i+1]; ++j) { s += std::fabs(A.val[j]); if (A.col[j] != i) bd.set(i, A.col[j], A.val[j]); } bd.set(i, i, (double)(1 + ((long)s) % 7) * ((i % 3) ? 1.0 : -2.0)); } Adg = bd.finish(); }
@@ -126,6 +139,15 @@ Result execute(const Plan &p) {
           if (dF.loc_col_shift() != dA.loc_col_shift() || dF.loc_rows() != dA.loc_rows() || dF.loc_cols() != dA.loc_cols() || dF.glob_rows() != dA.glob_rows() || dF.glob_cols() != dA.glob_cols() || dF.glob_nonzeros() != dA.glob_nonzeros())
               fails[rank] += fmt("copy to another backend: column offset %ld (source %ld), local %ldx%ld (source %ldx%ld); ", (long)dF.loc_col_shift(), (long)dA.loc_col_shift(), (long)dF.loc_rows(), (long)dF.loc_cols(), (long)dA.loc_rows(), (long)dA.loc_cols());
           DMF dFB(dB); auto dFC = amgcl::mpi::product(dF, dFB); add_strip(gotFC, *dFC->local(), *dFC->remote(), r0, kp[rank]); }
+        // block-valued matrices (2x2 static_matrix, integer blocks that do not commute): values travel as MPI datatypes of whole blocks
+        { typedef amgcl::static_matrix<double,2,2> BV; typedef amgcl::mpi::distributed_matrix<amgcl::backend::builtin<BV> > DMB;
+          std::vector<BV> va(As.val.size()), vb(Bs.val.size());
+          for (size_t q = 0; q < va.size(); ++q) va[q] = blk(As.val[q], As.col[q]);
+          for (size_t q = 0; q < vb.size(); ++q) vb[q] = blk(Bs.val[q], Bs.col[q] + 1);
+          DMB dBA(comm, std::make_tuple((size_t)As.n, std::ref(As.ptr), std::ref(As.col), std::ref(va)), c1 - c0);
+          DMB dBB(comm, std::make_tuple((size_t)Bs.n, std::ref(Bs.ptr), std::ref(Bs.col), std::ref(vb)), kp[rank+1] - kp[rank]);
+          auto dBT = amgcl::mpi::transpose(dBA); add_block_strip(gotBT, *dBT->local(), *dBT->remote(), c0, r0);
+          auto dBC = amgcl::mpi::product(dBA, dBB); add_block_strip(gotBC, *dBC->local(), *dBC->remote(), r0, kp[rank]); }
         // spectral radius (square matrices distributed conformally)
         if (conformal && n > 0) {
             gen::Csr Ad = strip(A, r0, r1);
@@ -199,6 +221,16 @@ Result execute(const Plan &p) {
         if (!(e = same(gotS, wantS)).empty()) res.fail(sig("serial-equivalence", "scale-sort_rows", e));
         if (!(e = same(gotF, wantA)).empty()) res.fail(sig("serial-equivalence", "copy-between-backends", e));
         if (!(e = same(gotFC, wantC)).empty()) res.fail(sig("serial-equivalence", "product-of-copies-in-another-backend", e));
+        {   // block-valued transpose (adjoint blocks) and product in the scalar expansion of the blocks
+            Entries eA, eB, wantBT, wantBC;
+            for (long i = 0; i < n; ++i) for (ptrdiff_t j = A.ptr[i]; j < A.ptr[i+1]; ++j) { auto k = blk(A.val[j], A.col[j]); for (int a = 0; a < 2; ++a) for (int b = 0; b < 2; ++b) eA[std::make_pair(2 * i + a, 2 * (long)A.col[j] + b)] += k(a, b); }
+            for (long i = 0; i < m; ++i) for (ptrdiff_t j = B.ptr[i]; j < B.ptr[i+1]; ++j) { auto k = blk(B.val[j], B.col[j] + 1); for (int a = 0; a < 2; ++a) for (int b = 0; b < 2; ++b) eB[std::make_pair(2 * i + a, 2 * (long)B.col[j] + b)] += k(a, b); }
+            for (Entries::iterator it = eA.begin(); it != eA.end(); ++it) wantBT[std::make_pair(it->first.second, it->first.first)] = it->second;
+            for (Entries::iterator ia = eA.begin(); ia != eA.end(); ++ia) for (Entries::iterator ib = eB.lower_bound(std::make_pair(ia->first.second, -1L)); ib != eB.end() && ib->first.first == ia->first.second; ++ib) wantBC[std::make_pair(ia->first.first, ib->first.second)] += ia->second * ib->second;
+            if (!(e = same(gotBT, wantBT)).empty()) res.fail(sig("serial-equivalence", "block-valued-transpose", e));
+            if (!(e = same(gotBC, wantBC)).empty()) res.fail(sig("serial-equivalence", "block-valued-product", e));
+            res.counts["block_valued_matrices"]++;
+        }
         if (!(e = same(gotK, wantA)).empty()) res.fail(sig("serial-equivalence", "kept-source-after-move_to_backend", e));
         if (!(e = same(gotKT, wantT)).empty()) res.fail(sig("serial-equivalence", "transpose-after-move_to_backend(keep_src)", e));
         if (!(e = same(gotKC, wantC)).empty()) res.fail(sig("serial-equivalence", "product-after-move_to_backend(keep_src)", e));
